@@ -100,6 +100,12 @@ func checkC02(r *Run) {
 	if m := hdr.Weighted(5, 1, 1, 1, 1, 1); m > 0 {
 		outMode = OutputModes[m-1]
 	}
+	// a cross-table equality in WHERE on top of the ON clause (inner joins): two filter levels, both of
+	// which the optimiser turns into join keys
+	whereEq := joinKind == 0 && hdr.Chance(1, 3)
+	// streamed inputs: every record carries an event time and watermarks are interleaved (the result is
+	// the same join; the join then runs through its event-time buffers and both phases)
+	streamed := joinKind != 4 && hdr.Chance(1, 4)
 
 	L := genTable(t.Block(6*maxRows), "l", maxRows, true)
 	R := genTable(t.Block(6*maxRows), "r", maxRows, true)
@@ -134,6 +140,11 @@ func checkC02(r *Run) {
 	}
 	if where {
 		sql += " WHERE l.v >= 1"
+		if whereEq {
+			sql += " AND l.k2 = r.k2"
+		}
+	} else if whereEq {
+		sql += " WHERE l.k2 = r.k2"
 	}
 
 	attrs := map[string]string{"join": strings.ToLower(strings.ReplaceAll(joinSQL[joinKind], " ", "_"))}
@@ -147,12 +158,18 @@ func checkC02(r *Run) {
 	if third {
 		r.Log("s: %s", tableString(S))
 	}
-	r.Shape(joinKind, nKeys, theta, where, third, thirdKind, optimize, len(L), len(R), len(S), outMode)
+	r.Shape(joinKind, nKeys, theta, where, third, thirdKind, optimize, len(L), len(R), len(S), outMode, whereEq, streamed)
 
 	ctl := NewCtl()
+	sb := t.Block(3 * 3 * (maxRows + 1))
 	mk := func(name string, rows [][]octosql.Value) *SimTable {
+		script := rowsToScript(rows)
+		if streamed {
+			script = streamScript(sb.Block(3*(maxRows+1)), rows)
+			r.Log("%s stream: %s", name, ScriptString(script))
+		}
 		return &SimTable{Fields: c02Fields(), TimeField: -1, NoRetractions: true,
-			Source: func() execution.Node { return &ScriptSource{Name: name, Msgs: rowsToScript(rows), Ctl: ctl} }}
+			Source: func() execution.Node { return &ScriptSource{Name: name, Msgs: script, Ctl: ctl} }}
 	}
 	tables := map[string]*SimTable{"l": mk("L", L), "r": mk("R", R), "s": mk("S", S)}
 	var planned *Planned
@@ -187,6 +204,15 @@ func checkC02(r *Run) {
 		f := NewMS()
 		for _, row := range want.Rows() {
 			if row[2].TypeID == octosql.TypeIDInt && row[2].Int >= 1 {
+				f.Add(row, 1)
+			}
+		}
+		want = f
+	}
+	if whereEq {
+		f := NewMS()
+		for _, row := range want.Rows() {
+			if row[1].TypeID == octosql.TypeIDInt && row[5].TypeID == octosql.TypeIDInt && row[1].Int == row[5].Int {
 				f.Add(row, 1)
 			}
 		}
@@ -288,6 +314,22 @@ func checkC02(r *Run) {
 		}
 		r.Violate("C02", "result_mismatch", a, "%s != SQL join: %s", what, d)
 	}
+}
+
+// streamScript turns a table into a watermarked stream: ascending event times (ties likely), a
+// truthful watermark now and then (never above the time of a record still to come).
+func streamScript(t *Tape, rows [][]octosql.Value) []Msg {
+	var msgs []Msg
+	sec := 1
+	for _, row := range rows {
+		b := t.Block(3)
+		sec += b.Draw(3)
+		msgs = append(msgs, Msg{Kind: MsgRec, Values: row, ET: T(sec)})
+		if w := sec - 1 - b.Draw(2); b.Draw(3) == 0 && w >= 1 {
+			msgs = append(msgs, Msg{Kind: MsgWM, ET: T(w)}) // strictly below every record still to come: no late data
+		}
+	}
+	return msgs
 }
 
 func hasNullKey(L, R, S [][]octosql.Value, nKeys int) bool {
